@@ -547,6 +547,8 @@ func (ex *Exec) applyCall(st *State, fr *Frame, c *ssa.CallCommon, fc *FuncContr
 		w.heapHavocAll(st.heap)
 	}
 	ex.implLockgen = fc.Kind != "extern"
+	ex.curCall, ex.curNames = c, names
+	defer func() { ex.curCall, ex.curNames = nil, nil }()
 	for _, m := range fc.Modifies {
 		for _, e := range m.Exprs {
 			if err := ex.havocLoc(st, env, old, e); err != nil {
@@ -718,6 +720,55 @@ func (ex *Exec) havocLoc(st *State, env *CEnv, old *Heap, e CExpr) error {
 				_ = arr
 			}
 			w.heapSet(st.heap, an, na)
+			return nil
+		case "allfields": // allfields(p): every field of the struct the argument p points to (its static type at the call site)
+			id, ok := n.Args[0].(*CIdent)
+			if !ok || ex.curCall == nil {
+				return cerr("allfields(param) is only available in the modifies clause of a called contract")
+			}
+			var sv ssa.Value
+			for i, nm := range ex.curNames {
+				if nm != id.Name {
+					continue
+				}
+				if ex.curCall.IsInvoke() {
+					if i == 0 {
+						sv = ex.curCall.Value
+					} else if i-1 < len(ex.curCall.Args) {
+						sv = ex.curCall.Args[i-1]
+					}
+				} else if i < len(ex.curCall.Args) {
+					sv = ex.curCall.Args[i]
+				}
+			}
+			if sv == nil {
+				return cerr("allfields(%s): no such parameter", id.Name)
+			}
+			if mi, ok := sv.(*ssa.MakeInterface); ok {
+				sv = mi.X
+			}
+			if _, isIface := sv.Type().Underlying().(*types.Interface); isIface {
+				// the message is opaque at this call site (passed on as an interface): this caller reads none of its fields
+				w.Note("allfields(" + id.Name + "): dynamic type unknown at a call in " + ex.fn.Name() + ", no concrete field havoced")
+				return nil
+			}
+			pt, ok := sv.Type().Underlying().(*types.Pointer)
+			if !ok {
+				return cerr("allfields(%s): argument of type %s is not a pointer to a struct", id.Name, sv.Type())
+			}
+			stt, ok := asStruct(pt.Elem())
+			if !ok {
+				return cerr("allfields(%s): argument of type %s is not a pointer to a struct", id.Name, sv.Type())
+			}
+			v, err := oenv.Eval(n.Args[0])
+			if err != nil {
+				return err
+			}
+			for i := 0; i < stt.NumFields(); i++ {
+				ft := stt.Field(i).Type()
+				nv := ex.freshOfType(st, "mod!"+stt.Field(i).Name(), ft)
+				ex.store(st, ex.fieldAddr(v.T, pt.Elem(), i), nv, ft)
+			}
 			return nil
 		case "sends": // sends(ch): the number of values sent on ch
 			v, err := oenv.Eval(n.Args[0])
